@@ -777,6 +777,7 @@ func TestC16Free(t *testing.T) {
 				objs[i] = o
 			}
 			parallel(len(cs.G), func(g int) {
+				seenErr := map[string]bool{} // failures this goroutine has been handed already
 				for _, op := range cs.G[g] {
 					o := objs[op%cs.Objs]
 					if cs.RW {
@@ -788,6 +789,16 @@ func TestC16Free(t *testing.T) {
 						x, err := o.once.Resolve(context.Background())
 						if err == nil && int64(x) != o.okVal.Load() {
 							f.add("C16", "once:wrong-value", "Resolve returned %d, the successful invocation returned %d", x, o.okVal.Load())
+						}
+						if err != nil {
+							// every failure is a fresh error value; a Resolve that starts after an earlier
+							// one returned it runs (or joins) a later invocation
+							key := fmt.Sprintf("%d/%v", op%cs.Objs, err)
+							if seenErr[key] {
+								f.add("C16", "once:stale-error", "Resolve returned %v again although an earlier Resolve of the same goroutine had already returned that failure (the function is not called again after it failed)", err)
+								return
+							}
+							seenErr[key] = true
 						}
 					}
 				}
@@ -1126,10 +1137,12 @@ func TestC17Free(t *testing.T) {
 				var foreign atomic.Int32
 				var wg sync.WaitGroup
 				fns := make([]ccall.CallConcurrentlyFunc, n)
+				var fctx atomic.Pointer[context.Context]
 				for i := range fns {
 					wg.Add(1)
 					fns[i] = func(ctx context.Context) error {
 						defer wg.Done()
+						fctx.Store(&ctx)
 						runs[i].Add(1)
 						if (code+i)%3 == 0 {
 							return fmt.Errorf("fn-%d", i)
@@ -1138,6 +1151,10 @@ func TestC17Free(t *testing.T) {
 					}
 				}
 				ctx, cancel := context.WithCancel(context.Background())
+				if code%2 == 1 {
+					// a context type of the caller's own (derived contexts hear of its end later)
+					ctx, cancel = newOwnCtx()
+				}
 				switch code % 3 {
 				case 0:
 					cancel()
@@ -1145,6 +1162,10 @@ func TestC17Free(t *testing.T) {
 					go cancel()
 				}
 				_ = ccall.CallConcurrently(ctx, fns...)
+				if p := fctx.Load(); p != nil && (*p).Err() == nil {
+					f.add("C17", "ccall:ctx-not-cancelled", "CallConcurrently has returned and the context it gave to its functions is still live (caller context of a type of its own: %v)", code%2 == 1)
+					return
+				}
 				other := func(context.Context) error { foreign.Add(1); return nil }
 				for i := range fns {
 					fns[i] = other
